@@ -134,6 +134,37 @@ Theorem C02_back_go :
 Proof. exact Proofs.C02_Go.C02_back_go_b. Qed.
 Print Assumptions C02_back_go.
 
+(* The EXACT Go class.  Spec.C02Spec.c02_go_rewrite states the acronym rewriting on its own (PascalCase form of
+   each acronym, leftmost non-overlapping occurrences, accepted when followed by a non-lowercase character or the
+   end, covered letters upper-cased); it IS the model's go.rs:579 on ASCII input: *)
+Theorem C02_go_rewrite_is_model :
+  forall (uc : unicode), unicode_ok uc ->
+  forall (acronyms : list str) (name : str),
+    forallb (forallb is_ascii) acronyms = true -> forallb is_ascii name = true ->
+    go_convert_acronyms_to_uppercase uc acronyms name = Ok (c02_go_rewrite acronyms name).
+Proof. exact Proofs.C02_Go.C02_go_rewrite_is_model. Qed.
+Print Assumptions C02_go_rewrite_is_model.
+
+(* ... the class it decides (two variant identifiers rewritten to ONE string) lies inside the over-approximation ... *)
+Theorem C02_go_exact_in_class :
+  forall acronyms x c, known_C02_back_go acronyms x = Some c -> known_C02_back Go true x = Some c.
+Proof. exact Proofs.C02_Go.C02_go_exact_in_class. Qed.
+Print Assumptions C02_go_exact_in_class.
+
+(* ... and is EXACT: for every configuration with ASCII acronyms and every IR enum of the domain, the verdict holds
+   if and only if the enum is outside the class (the check uses this class: an enum inside it must fail, an enum
+   outside it must pass, whatever the acronym list) *)
+Theorem C02_back_go_exact :
+  forall (uc : unicode), unicode_ok uc ->
+  forall (cfg : go_config), forallb (forallb is_ascii) (go_uppercase_acronyms cfg) = true ->
+  forall custom e s ds s',
+    go_decl_of uc cfg custom (ItEnum e) s = Ok (ds, s') ->
+    dom_C02_back (c02_expect_ir e) = true ->
+    (good_C02 Go (c02_expect_ir e) (flat_map go_obs ds) = true <->
+     known_C02_back_go (go_uppercase_acronyms cfg) (c02_expect_ir e) = None).
+Proof. exact Proofs.C02_Go.C02_back_go_exact_b. Qed.
+Print Assumptions C02_back_go_exact.
+
 (* The member-name function of Python's <Enum>Types class (convert_case's snake_case, upper-cased),
    which decides the class C02-python-types-member-collision, is on ASCII strings the spec's own
    c02_py_key: the class is decided by the Spec, not by the model's output. *)
